@@ -18,6 +18,27 @@ TABLE_APP = [
                   ("(input_dims as f64).log2().ceil() as u32", "ceilLog2In", "Nat")]},
     {"file": CH, "fn": "input_terms", "impl": "MatmulHelper", "lean": "mm_input_terms", "model": "MM.inputTerms"},
     {"file": CH, "fn": "output_terms", "impl": "MatmulHelper", "lean": "mm_output_terms", "model": "MM.outputTerms"},
+    # second round: positions written by the encoders (fragments; the element write `vec[POS] = src[SRC]` is read as "POS must be inside the
+    # buffer, record (POS, SRC)"; `encode_weight_small_bfv` keeps its real `vec` for `vec.len()` and its own `assert!`)
+    {"file": CH, "fn": "encode_weight_small_bfv", "impl": "MatmulHelper", "lean": "mm_weight_positions", "model": "MM.wPos / encWeightSmall",
+     "effects": {"vec[r] = weights[i * self.output_dims + j]": "plan.push(r); plan.push(i * self.output_dims + j);"},
+     "fragment": {"start": "let slots = self.poly_degree;", "count": 3,
+                  "params": [("self", "MatmulHelper"), ("li", USZ), ("ui", USZ), ("lj", USZ), ("uj", USZ)],
+                  "prologue": "let mut plan = vec![];", "result": "plan", "ret": ("vec", USZ)}},
+    {"file": CH, "fn": "encode_inputs_bfv", "impl": "MatmulHelper", "lean": "mm_input_positions", "model": "MM.inPos / encInputBlock",
+     "effects": {"vec[(i - li) * self.input_block * self.output_block + (j - lj)] = inputs[i * self.input_dims + j]":
+                 "let p = (i - li) * self.input_block * self.output_block + (j - lj); assert!(p < self.poly_degree); plan.push(p); plan.push(i * self.input_dims + j);"},
+     "fragment": {"start": "for i in li..ui {", "count": 1,
+                  "params": [("self", "MatmulHelper"), ("li", USZ), ("ui", USZ), ("lj", USZ), ("uj", USZ)],
+                  "prologue": "let mut plan = vec![];", "result": "plan", "ret": ("vec", USZ)}},
+    {"file": CH, "fn": "decrypt_outputs_bfv", "impl": "MatmulHelper", "lean": "mm_output_positions", "model": "MM.outPos / decodeOutputs",
+     "effects": {"decryptor.decrypt(&outputs.data[di][dj], &mut pt)": "", "encoder.decode_polynomial(&pt, &mut buffer)": "",
+                 "buffer.resize(self.poly_degree, 0)": "",
+                 "dec[i * self.output_dims + j] = buffer[(i - li) * self.input_block * self.output_block + (j - lj) * self.input_block + self.input_block - 1]":
+                 "let p = (i - li) * self.input_block * self.output_block + (j - lj) * self.input_block + self.input_block - 1; assert!(p < self.poly_degree); plan.push(i * self.output_dims + j); plan.push(p);"},
+     "fragment": {"start": "decryptor.decrypt(&outputs.data[di][dj], &mut pt);", "count": 4,
+                  "params": [("self", "MatmulHelper"), ("li", USZ), ("ui", USZ), ("lj", USZ), ("uj", USZ)],
+                  "prologue": "let mut plan = vec![];", "result": "plan", "ret": ("vec", USZ)}},
     {"file": CV, "fn": "ceil_div", "lean": "cv_ceil_div", "model": "MM.ceilDiv"},
     {"file": CV, "fn": "new", "impl": "Conv2dHelper", "lean": "cv_new", "model": "MM.CHelper.new"},
     {"file": CV, "fn": "output_terms", "impl": "Conv2dHelper", "lean": "cv_output_terms", "model": "MM.cvOutputTerms"},
@@ -61,6 +82,26 @@ TABLE_APP_LWE = [
                  "self.apply_galois_inplace(odd, (1 << (layer + 1)) + 1, automorphism_keys)": "plan.push(even); plan.push((1<<(layer+1))+1);",
                  "self.transform_from_ntt_inplace(odd)": "", "self.add_inplace(even, odd)": ""},
      "fragment": {"start": "for layer in 0..l {", "count": 1, "params": [("l", USZ), ("poly_modulus_degree", USZ), ("ntt_form", ("name", "bool"))],
+                  "prologue": "let mut plan = vec![];", "result": "plan", "ret": ("vec", USZ)}},
+    # second round: the WHOLE plan of `pack_lwe_ciphertexts` as one generated function: [l] ++ leaves ++ butterflies ++ [trace parameter]
+    {"file": LW, "fn": "pack_lwe_ciphertexts", "impl": "Evaluator", "lean": "lwe_pack_plan", "model": "packPoly (whole program)",
+     "fuels": [65, 18446744073709551616], "fncalls": {"util::reverse_bits_u64": (UB, "reverse_bits_u64")},
+     "effects": {"let mut rlwes = vec![Ciphertext::new(); 1 << l]": "plan.push(l);",
+                 "let mut zero_rlwe = self.assemble_lwe(&lwes[0])": "", "zero_rlwe.data_mut().fill(0)": "",
+                 "rlwes[i] = self.assemble_lwe(&lwes[index])": "plan.push(index);",
+                 "self.divide_by_poly_modulus_degree_inplace(&mut rlwes[i], None)": "",
+                 "rlwes[i] = zero_rlwe.clone()": "plan.push(lwes_count);",
+                 "let modulus = context_data.parms().coeff_modulus()": "", "let mut temp = zero_rlwe.clone()": "",
+                 "let even = unsafe {rlwes.as_mut_ptr().add(offset).as_mut().unwrap()}": "let even = offset;",
+                 "let odd = unsafe {rlwes.as_mut_ptr().add(offset + gap).as_mut().unwrap()}": "let odd = offset + gap;",
+                 "polymod::negacyclic_shift_ps(odd.data(), shift, odd.size(), poly_modulus_degree, modulus, temp.data_mut())": "plan.push(odd); plan.push(shift);",
+                 "self.sub(even, &temp, odd)": "", "self.add_inplace(even, &temp)": "",
+                 "self.transform_to_ntt_inplace(odd)": "",
+                 "self.apply_galois_inplace(odd, (1 << (layer + 1)) + 1, automorphism_keys)": "plan.push(even); plan.push((1<<(layer+1))+1);",
+                 "self.transform_from_ntt_inplace(odd)": "", "self.add_inplace(even, odd)": "",
+                 "let mut ret = rlwes[0].clone()": "", "self.transform_to_ntt_inplace(&mut ret)": "",
+                 "self.field_trace_inplace(&mut ret, automorphism_keys, l)": "plan.push(l);"},
+     "fragment": {"start": "let mut l = 0;", "count": 12, "params": [("lwes_count", USZ), ("poly_modulus_degree", USZ), ("ntt_form", ("name", "bool"))],
                   "prologue": "let mut plan = vec![];", "result": "plan", "ret": ("vec", USZ)}},
     # `field_trace_inplace`: the whole loop; `apply_galois` + `add_inplace` = one step with the Galois element recorded
     {"file": LW, "fn": "field_trace_inplace", "impl": "Evaluator", "lean": "lwe_field_trace_plan", "model": "fieldTracePoly (loop structure)", "fuels": [65],
